@@ -19,7 +19,7 @@ from sim.fingerprint import obs_equal
 from sim.world import Session, classify, exc_detail, exc_signature, reference_world
 
 PROPERTY = "C10"
-SESSIONS = {"quick": 200, "thorough": 5000}
+SESSIONS = {"quick": 200, "thorough": 400}
 BUDGET_S = {"quick": 80, "thorough": 1500}
 CAP_S = {"quick": 240, "thorough": 480}
 RULE = ("one session = one generated recipe containing knob-bearing ops (reductions, groupby, merge, sort/set_index, shuffle, "
